@@ -1037,6 +1037,17 @@ def m_to_bytes(I, st, call):
        "core::num::<impl u16>::from_le_bytes", "core::num::<impl u16>::from_ne_bytes")
 def m_from_bytes(I, st, call):
     it = I.int_ty(call.dest_ty)
+    a = call.args[0]
+    if isinstance(a, OpaqueV) and isinstance(a.get("elems"), StructV):
+        a = a.get("elems")
+    if isinstance(a, StructV) and a.fields and all(isinstance(f, IntV) and st.range(f.aff)[0] >= 0 and st.range(f.aff)[1] <= 255 for f in a.fields) \
+            and it is not None and len(a.fields) * 8 <= it[0] and call.name in ("from_be_bytes", "from_le_bytes"):
+        # exact: the bytes are disjoint digits in base 256
+        n = len(a.fields)
+        e = Aff.const(0)
+        for k, f in enumerate(a.fields):
+            e = e + f.aff.scale(256 ** ((n - 1 - k) if call.name == "from_be_bytes" else k))
+        return [(st, IntV(e, it))]
     r = I.fresh_int(st, call.name, it)
     r.origin = (call.name, call.args[0])
     return [(st, r)]
